@@ -7,14 +7,15 @@ from . import paths as P
 
 EXPLANATION = (
     "Decides structural necessary conditions of C03 from MIR: (R1) every call of the reconciliation store's put is "
-    "dominated by successful validation on both ingress paths, including the emptiness check for remote entries "
+    'dominated by successful validation on both ingress paths, including the emptiness check for remote entries '
     "(interprocedural 'ensures' fixpoint over call-site dominance); (R2) validate_entry returns Ok only when the namespace "
-    "matches, the signature verified unless the origin is Local, and the timestamp is not Greater than now+SHIFT, evaluated "
-    "over all paths x {Local,Sync} x {Less,Equal,Greater}; SHIFT = 600_000_000 us; validate_empty's table over bool^2; "
-    "(R3) signature verification pairs each key with its own signature over the entry's canonical bytes and propagates every "
-    "result; (R4) the canonical encoding reads every field; (R5) the verification-skipping Local origin is constructed only "
-    "in local insert/delete; (R6) a failed validation continues the value loop. NOT decided: unforgeability (ed25519 trusted), "
-    "clock arithmetic."
+    'matches, the signature verified unless the origin is Local, and the timestamp is not Greater than now+SHIFT, evaluated'
+    ' (abstract interpretation of its MIR) over namespace {same,other} x origin {Local,Sync} x verify {Ok, Err(Signature), '
+    "Err(KeyParsing)} x cmp(timestamp, now+SHIFT) {Less,Equal,Greater}; SHIFT = 600_000_000 us; validate_empty's table over"
+    " bool^2; (R3) signature verification pairs each key with its own signature over the entry's canonical bytes and "
+    'propagates every result; (R4) the canonical encoding reads every field; (R5) the verification-skipping Local origin is'
+    ' constructed only in local insert/delete; (R6) a failed validation continues the value loop. NOT decided: '
+    'unforgeability (ed25519 trusted), clock arithmetic.'
 )
 ASSUMPTIONS = [
     "ed25519 signature verification and iroh::PublicKey parsing are trusted",
